@@ -16,7 +16,7 @@ def oracle(k, w):
 def run(ck):
     if THEOREMS:
         ck.prove('C03', THEOREMS)
-    fails, mism = wk.campaign(ck, ck.scale(72, 1500), oracle, coq_lanes=1, stress_every=2, line_level=True)
+    fails, mism = wk.campaign(ck, ck.scale(72, 1500), oracle, gen_kw={'strip_prob': 0.3}, coq_lanes=1, stress_every=2, line_level=True)
     ck.rule('random circuits x integer delay tables (zero/uniform/polarity-free/fully polarity-dependent/large spread) x capacities '
             '4/8/16/per-line vectors (overflowing) x single- and multi-transition input waveforms x 1..5 lanes x c_reuse; '
             'oracle: Boolean function of initial/final input values at every line and port')
